@@ -619,8 +619,7 @@ def build_opt(s, hook=None, driver=True):
     ma, mb = np.asarray(s['Aa']).shape[0], np.asarray(s['Ab']).shape[0]
     sp = s['sparse_decl']
     prob = om.Problem()
-    if s['pre_opt_post']:
-        prob.options['group_by_pre_opt_post'] = True
+    prob.options['group_by_pre_opt_post'] = bool(s['pre_opt_post'])
     m = prob.model
     ivc = m.add_subsystem('iv', om.IndepVarComp(), promotes=['*'])
     ivc.add_output('xa', np.asarray(s['x0a'], float))
